@@ -12,6 +12,8 @@
     - the cloud-moist class is NOT invariant when the condensate is non-zero:
       [C04_tref_split_cloud_refuted]. *)
 From Dino Require Import Base.Ops Base.Sums Base.Inst Base.Ord Model.Sigma Model.Implicit Model.PrimEq Thm.PrimEq.
+From Dino Require Model.SHT Model.Deriv.
+From Dino Require Import Model.PrimEqFull Thm.Implicit Thm.PrimEqFull.
 From Coq Require Import Reals Qcanon Lra.
 Local Open Scope F_scope.
 
@@ -277,6 +279,107 @@ Section C04_modal.
   Qed.
 End C04_modal.
 
+(** *** the END-TO-END executable whole-state model (Model/PrimEqFull.v): compute_diagnostic_state,
+    explicit_terms, implicit_terms, implicit_inverse composed from the concrete transforms of Model/SHT.v
+    and the concrete spectral operators of Model/Deriv.v on the reference layout.  What the plugin
+    executes against the real explicit_terms / implicit_terms / implicit_inverse is, field by field,
+    the ModalAssembly instance the theorems above are about. *)
+Section C04_whole_state.
+  Context {F : Type} {o : Ops F} {Fc : FieldC o}.
+  Hypothesis two_nz : two <> 0.
+  Hypothesis feqb_sound : forall x y : F, feqb x y = true -> x = y.
+  Variable g : @HGrid F.
+  Variable c : @PEcfg F.
+  Variable grav : F.
+
+  (** (a) executed = assembled: every coefficient of every field of explicit_terms_full *)
+  Theorem C04_whole_state_is_assembly (orog : nat -> nat -> F) (s : @State F) k a l :
+    (k < cK c)%nat -> (a < hR g)%nat -> (l < hL g)%nat ->
+    let X := X_of g (diagnostic_state g (cK c) s) in
+    s_vort (explicit_terms_full g c grav orog s) k a l
+    = vort_tendency_explicit Wi Wi (toM_c g) (curlc_c g) (clip_c g) c X (fun p => rt_dry c (X p)) (fun _ => 0) k (a, l) /\
+    s_div (explicit_terms_full g c grav orog s) k a l
+    = div_tendency_explicit Wi Wi (toM_c g) (divc_c g) (lap_c g) (clip_c g) c grav X (fun p => rt_dry c (X p))
+                            (unc orog) (fun _ => 0) k (a, l) /\
+    s_temp (explicit_terms_full g c grav orog s) k a l
+    = temp_tendency_explicit Wi Wi (toM_c g) (divc_c g) (clip_c g) c X k (a, l) /\
+    s_lnps (explicit_terms_full g c grav orog s) a l = lnps_tendency_explicit_c g c X (a, l).
+  Proof. exact (explicit_terms_full_is_assembly g c grav orog s k a l). Qed.
+
+  (** (b) the concrete operators are linear and the concrete laplacian kills the (0,0)-only field:
+      the linearity / lap_const premises of the modal theorems are discharged for the executable model *)
+  Theorem C04_concrete_operators_linear :
+    Thm.PrimEq.linear (toM_c g) /\ Thm.PrimEq.linear2 (divc_c g) /\ Thm.PrimEq.linear2 (curlc_c g) /\
+    Thm.PrimEq.linear (lap_c g) /\ Thm.PrimEq.linear (clip_c g) /\ (forall v w, lap_c g (onem00 v) w = 0).
+  Proof.
+    split; [apply toM_c_lin|]. split; [apply divc_c_lin|]. split; [apply curlc_c_lin|].
+    split; [apply lap_c_lin|]. split; [apply clip_c_lin|]. intros v w. apply lap_c_const.
+  Qed.
+
+  (** ... hence explicit + implicit of the executable composition does not depend on the split, under the
+      exactness facts about the grid tables only *)
+  Hypothesis th2_nz : forall k, (S k < cK c)%nat -> thickness (cb c) k + thickness (cb c) (S k) <> 0.
+  Variable X : Wi -> @NCol F.
+  Variable T : nat -> Wi -> F.
+  Variable dv Tm : nat -> Wi -> F.
+  Variable lnps orog : Wi -> F.
+  Variable v00 : F.
+  Hypothesis div_nodal : forall p k, n_div (X p) k = toN_c g (dv k) p.
+  Hypothesis H_roundtrip : forall s w, clip_c g (toM_c g (toN_c g (dv s))) w = dv s w.
+  Hypothesis H_div_vel : forall r w,
+      clip_c g (divc_c g (toM_c g (fun p => n_u (X p) r * n_sec2 (X p))) (toM_c g (fun p => n_v (X p) r * n_sec2 (X p)))) w
+      = clip_c g (toM_c g (fun p => n_div (X p) r)) w.
+  Hypothesis H_div_grad : forall w,
+      clip_c g (divc_c g (toM_c g (fun p => n_gx (X p) * n_sec2 (X p))) (toM_c g (fun p => n_gy (X p) * n_sec2 (X p)))) w
+      = lap_c g lnps w.
+  Hypothesis H_curl_grad : forall w,
+      clip_c g (curlc_c g (toM_c g (fun p => n_gx (X p) * n_sec2 (X p))) (toM_c g (fun p => n_gy (X p) * n_sec2 (X p)))) w = 0.
+
+  Theorem C04_whole_state_temperature_invariance (T1 T2 : nat -> F) r w :
+    (r < cK c)%nat ->
+    temp_tendency_explicit Wi Wi (toM_c g) (divc_c g) (clip_c g) (with_tref c T1) (Xs Wi X T T1) r w
+    + temp_tendency_implicit Wi (with_tref c T1) dv r w
+    = temp_tendency_explicit Wi Wi (toM_c g) (divc_c g) (clip_c g) (with_tref c T2) (Xs Wi X T T2) r w
+      + temp_tendency_implicit Wi (with_tref c T2) dv r w.
+  Proof. exact (temperature_invariance_concrete two_nz feqb_sound g c th2_nz X T dv div_nodal H_roundtrip H_div_vel T1 T2 r w). Qed.
+
+  Theorem C04_whole_state_divergence_invariance (T1 T2 : nat -> F) r w :
+    div_tendency_explicit Wi Wi (toM_c g) (divc_c g) (lap_c g) (clip_c g) (with_tref c T1) grav (Xs Wi X T T1)
+                          (fun p => rt_dry (with_tref c T1) (Xs Wi X T T1 p)) orog (fun _ => 0) r w
+    + div_tendency_implicit Wi (lap_c g) (with_tref c T1) (Tms Wi Tm (onem00 v00) T1) lnps r w
+    = div_tendency_explicit Wi Wi (toM_c g) (divc_c g) (lap_c g) (clip_c g) (with_tref c T2) grav (Xs Wi X T T2)
+                            (fun p => rt_dry (with_tref c T2) (Xs Wi X T T2 p)) orog (fun _ => 0) r w
+      + div_tendency_implicit Wi (lap_c g) (with_tref c T2) (Tms Wi Tm (onem00 v00) T2) lnps r w.
+  Proof. exact (divergence_invariance_concrete g c grav X T Tm lnps orog v00 H_div_grad T1 T2 r w). Qed.
+
+  Theorem C04_whole_state_vorticity_invariance (T1 T2 : nat -> F) r w :
+    vort_tendency_explicit Wi Wi (toM_c g) (curlc_c g) (clip_c g) (with_tref c T1) (Xs Wi X T T1)
+                           (fun p => rt_dry (with_tref c T1) (Xs Wi X T T1 p)) (fun _ => 0) r w
+    = vort_tendency_explicit Wi Wi (toM_c g) (curlc_c g) (clip_c g) (with_tref c T2) (Xs Wi X T T2)
+                             (fun p => rt_dry (with_tref c T2) (Xs Wi X T T2 p)) (fun _ => 0) r w.
+  Proof. exact (vorticity_invariance_concrete g c X T H_curl_grad T1 T2 r w). Qed.
+  (** NOT proved (named gap, "whole_state_lift"): that the nodal columns X_of (diagnostic_state s_i) of two
+      states with temperature_variation = Tm - T_i * onem00 are [Xs X T T_i] on the node range; it needs
+      to_nodal(onem00) = 1 as a further table hypothesis and range-extensionality of every column function. *)
+
+  (** (c) implicit half: linear, and implicit_inverse_full inverts 1 - eta * implicit_terms_full, per coefficient *)
+  Theorem C04_whole_state_implicit_linear (al be : F) (x y z : @State F) a l :
+    col_eq (cK c) (col_of z a l) (col_lin al (col_of x a l) be (col_of y a l)) ->
+    col_eq (cK c) (col_of (implicit_terms_full g c z) a l)
+                  (col_lin al (col_of (implicit_terms_full g c x) a l) be (col_of (implicit_terms_full g c y) a l)).
+  Proof. exact (implicit_terms_full_linear g c al be x y z a l). Qed.
+
+  Theorem C04_whole_state_resolvent (eta : F) (invt : nat -> @Mat F) (x : @State F) a l :
+    is_left_inverse (2 * cK c + 1) (invt l) (implicit_matrix c eta (Model.Deriv.lap_eig (hL g) (hr g) l)) ->
+    thickness (cb c) 0%nat <> 0 -> thickness (cb c) (cK c - 1)%nat <> 0 ->
+    col_eq (cK c)
+           (col_of (implicit_inverse_full g c eta invt (state_minus_scaled x eta (implicit_terms_full g c x))) a l)
+           (col_of x a l) /\
+    (forall k, s_vort (implicit_inverse_full g c eta invt (state_minus_scaled x eta (implicit_terms_full g c x))) k a l
+               = s_vort x k a l).
+  Proof. exact (implicit_inverse_full_resolvent feqb_sound g c eta invt x a l). Qed.
+End C04_whole_state.
+
 (** *** a concrete instance over Qc: uneven 3-layer levels, non-uniform profiles *)
 Definition q3 (l : list Q) : nat -> Qc := fun k => Q2Qc (nth k l 0%Q).
 Definition ex_cfg : @PEcfg Qc :=
@@ -454,3 +557,10 @@ Print Assumptions C04_modal_moist_hyps_satisfiable.
 Print Assumptions C04_no_vertical_advection_refuted.
 Print Assumptions C04_tref_split_cloud_refuted.
 Print Assumptions C04_tref_split_invariance_R.
+Print Assumptions C04_whole_state_is_assembly.
+Print Assumptions C04_concrete_operators_linear.
+Print Assumptions C04_whole_state_temperature_invariance.
+Print Assumptions C04_whole_state_divergence_invariance.
+Print Assumptions C04_whole_state_vorticity_invariance.
+Print Assumptions C04_whole_state_implicit_linear.
+Print Assumptions C04_whole_state_resolvent.
